@@ -7,7 +7,7 @@ SCR=$(mktemp -d /tmp/sfmut.XXXXXX)
 rsync -a --exclude .git --exclude .hypothesis --exclude __pycache__ /repo/ "$SCR/repo/"
 if ! (cd "$SCR/repo" && patch -p1 -s < "$DIFF"); then echo "PATCH FAILED"; rm -rf "$SCR"; exit 3; fi
 for pid in "$@"; do
-  out=$(cd /verif && SF_REPO="$SCR/repo" /venv/bin/python -m sfmon check "$pid" --tier quick 2>&1)
+  out=$(cd /verif && SF_REPO="$SCR/repo" SFMON_OUT="$SCR" /venv/bin/python -m sfmon check "$pid" --tier quick 2>&1)
   rc=$?
   echo "$pid rc=$rc $(echo "$out" | grep -c '^VIOLATION') violation lines; $(echo "$out" | tail -1 | cut -c1-160)"
 done
